@@ -36,6 +36,7 @@ type Partial struct {
 	Violations  []ViolationRec    `json:"violations"`
 	Samples     []json.RawMessage `json:"samples"`
 	HarnessErr  string            `json:"harness_err,omitempty"`
+	Digests     map[string]uint64 `json:"digests,omitempty"` // case id -> hash of everything observed (determinism self-test)
 	WallS       float64           `json:"wall_s"`
 }
 
@@ -135,6 +136,23 @@ func SpawnWorkers(c Cfg, n int, extraEnv func(i int) []string, gomaxprocs func(i
 		}
 	}
 	return parts
+}
+
+// DumpDigests writes the union of the workers' digests to $VERIF_DIGESTS (if set).
+func DumpDigests(parts []*Partial) {
+	path := os.Getenv("VERIF_DIGESTS")
+	if path == "" {
+		return
+	}
+	all := map[string]uint64{}
+	for _, p := range parts {
+		for k, v := range p.Digests {
+			all[k] = v
+		}
+	}
+	if err := WriteJSON(path, all); err != nil {
+		Fatal2("write digests: %v", err)
+	}
 }
 
 // Merged is the union of partials.
